@@ -81,6 +81,14 @@ type S struct {
 	SwitchInsideOp int64
 	active         bool
 	lastSite       uint32
+	// parkSite[t] is the site at which task t was last switched out
+	// (0xffffffff: not started yet); Pairs collects, for every preemption
+	// inside an operation, (site where the running task was preempted, site at
+	// which the resumed task continues).
+	parkSite []uint32
+	Pairs    [][2]uint32
+	// BlockedPolls counts hand-overs forced by a task that could not take a lock.
+	BlockedPolls int64
 }
 
 // Switch2 is a replayable switch point.
@@ -128,6 +136,11 @@ func New(cfg Config) (*S, error) {
 	}
 	s.tasks = make([]task, cfg.Tasks)
 	s.inOp = make([]bool, cfg.Tasks)
+	s.parkSite = make([]uint32, cfg.Tasks)
+	for i := range s.parkSite {
+		s.parkSite[i] = 0xffffffff
+	}
+	s.Pairs = make([][2]uint32, 0, 1024)
 	for i := range s.tasks {
 		var fds [2]int
 		if err := syscall.Pipe2(fds[:], syscall.O_CLOEXEC); err != nil {
@@ -378,7 +391,11 @@ func (s *S) Yield(site uint32) {
 func (s *S) switchTo(from, to int, site uint32) {
 	if s.inOp[from] {
 		s.SwitchInsideOp++
+		if len(s.Pairs) < cap(s.Pairs) {
+			s.Pairs = append(s.Pairs, [2]uint32{site, s.parkSite[to]})
+		}
 	}
+	s.parkSite[from] = site
 	s.sinceCheck++
 	if s.Check != nil && s.CheckEvery > 0 && s.sinceCheck >= s.CheckEvery {
 		s.sinceCheck = 0
@@ -388,6 +405,67 @@ func (s *S) switchTo(from, to int, site uint32) {
 	s.cur = to
 	s.wake(to)
 	s.park(from)
+}
+
+// DeadlockPanic is raised in a task that is blocked while no other task is
+// left to run (the lock it waits for will never be released).
+type DeadlockPanic struct{}
+
+// Blocked is called (through verifsim.Blocked) by the running task when it
+// cannot take a lock held by a parked task: hand over to another live task.
+// A poll counts as a step, so that (step, task) stays a unique switch point.
+//
+//go:norace
+func (s *S) Blocked() {
+	if !s.active {
+		panic(DeadlockPanic{})
+	}
+	t := s.cur
+	s.step++
+	s.BlockedPolls++
+	if s.BlockedPolls > 2000000 {
+		// tasks blocked on each other for ever: a deadlock or livelock of the code under test
+		msg := []byte("verif-sched: tasks blocked on each other (deadlock or livelock)\n")
+		rawWrite(2, &msg[0], len(msg))
+		syscall.Exit(78)
+	}
+	next := -1
+	if s.policy == PolicyReplay {
+		for s.rpos < len(s.replay) && s.replay[s.rpos].Step < s.step {
+			s.rpos++
+		}
+		if s.rpos < len(s.replay) && s.replay[s.rpos].Step == s.step {
+			to := s.replay[s.rpos].Task
+			s.rpos++
+			if to >= 0 && to < len(s.tasks) && s.tasks[to].live && to != t {
+				next = to
+			}
+		}
+		if next < 0 {
+			next = s.nextLiveAfter(t)
+		}
+	} else {
+		next = s.liveOther(t)
+	}
+	if next < 0 {
+		panic(DeadlockPanic{})
+	}
+	s.switchTo(t, next, 0xfffffffc)
+}
+
+// nextLiveAfter: round robin, so that a replay whose schedule was thinned out
+// still reaches the task that holds the lock.
+//
+//go:norace
+func (s *S) nextLiveAfter(t int) int {
+	n := len(s.tasks)
+	for i := 1; i < n; i++ {
+		c := (t + i) % n
+		if s.tasks[c].live {
+			return c
+		}
+	}
+	return -1
 }
 
 // OpBegin / OpEnd bracket an operation of the running task.
